@@ -8,17 +8,6 @@
 //     already a key;
 //   * SuffixMatchDictPair<String>::insert((associated, suffix)): inserted unless the suffix is
 //     already a key.
-#[verifier::external_type_specification]
-#[verifier::external_body]
-pub struct ExXFixMatchDict(nar_dev_utils::PrefixMatchDict);
-#[verifier::external_type_specification]
-#[verifier::external_body]
-pub struct ExBiFixMatchDictPair(nar_dev_utils::BiFixMatchDictPair);
-#[verifier::external_type_specification]
-#[verifier::external_body]
-#[verifier::reject_recursive_types(T)]
-pub struct ExSuffixMatchDictPair<T>(nar_dev_utils::SuffixMatchDictPair<T>);
-
 pub uninterp spec fn dict_keys(d: &nar_dev_utils::PrefixMatchDict) -> Set<Seq<char>>;
 pub uninterp spec fn bi_pairs(d: &nar_dev_utils::BiFixMatchDictPair) -> Set<(Seq<char>, Seq<char>)>;
 /// suffix -> associated value
